@@ -71,6 +71,10 @@ def load(path: Union[str, DDSPath, pathlib.Path]) -> Any:
         # Inside an evaluation, the paths produced by this evaluation are only committed at the end:
         # the store still holds their previous content (or nothing).
         key = _eval_ctx.requested_paths.get(path_)
+        if key is None and _eval_ctx.loaded_paths is not None:
+            # A path produced elsewhere: it was resolved when the evaluation started, and the signatures of its
+            # readers are built on that key (the store may have been given another one since).
+            key = _eval_ctx.loaded_paths.get(path_)
     if key is None:
         key = _store().fetch_paths([path_]).get(path_)
     if key is None:
@@ -356,7 +360,9 @@ def _eval_new_ctx(
         _logger.debug(
             f"_eval_new_ctx: assigning {len(store_paths)} store path(s) to context"
         )
-        _eval_ctx = _eval_ctx._replace(requested_paths=store_paths)
+        _eval_ctx = _eval_ctx._replace(
+            requested_paths=store_paths, loaded_paths=resolved_indirect_refs
+        )
         present_blobs: Optional[Set[PyHash]]
         if extra_debug:
             present_blobs = set(
